@@ -2,6 +2,7 @@ package props
 
 import (
 	"fmt"
+	govv1 "github.com/cosmos/cosmos-sdk/x/gov/types/v1"
 	"math/big"
 	"time"
 
@@ -44,6 +45,9 @@ type c18Active struct {
 func c18(r *core.Run) []*core.Violation {
 	t := r.Tape
 	cfg := BridgeCfg{Chains: []ChainSpec{{"eth-main", 1}}}
+	if t.Draw(2) == 1 {
+		cfg.Chains = append(cfg.Chains, ChainSpec{"bnb-main", 56})
+	}
 	cfg.NVals = 3 + t.Intn(2)
 	cfg.NUsers = 4
 	cfg.InitialHeight = 40
@@ -65,10 +69,40 @@ func c18(r *core.Run) []*core.Violation {
 	if withFunders {
 		w.Gov.Propose("funders", nil, Legacy(palomaFundersProposal([]string{funder.Bech32()})))
 	}
-	if withContract {
-		w.Gov.Propose("sale-contracts", nil, Legacy(&skywaytypes.SetLightNodeSaleContractsProposal{Title: "sale-contracts", Description: "d",
-			LightNodeSaleContracts: []*skywaytypes.LightNodeSaleContract{{ChainReferenceId: "eth-main", ContractAddress: saleKey.Addr.Hex()}}}))
+	// the authorised sale contracts according to governance: every passed proposal replaces the whole set
+	type saleProp struct {
+		p   *Proposal
+		set map[string]common.Address
 	}
+	var saleProps []*saleProp
+	proposeSaleContracts := func(set map[string]common.Address) {
+		var l []*skywaytypes.LightNodeSaleContract
+		for _, c := range core.SortedKeys(set) {
+			l = append(l, &skywaytypes.LightNodeSaleContract{ChainReferenceId: c, ContractAddress: set[c].Hex()})
+		}
+		pr := w.Gov.Propose(fmt.Sprintf("sale-contracts %d", len(saleProps)), nil, Legacy(&skywaytypes.SetLightNodeSaleContractsProposal{Title: "sale-contracts", Description: "d", LightNodeSaleContracts: l}))
+		saleProps = append(saleProps, &saleProp{pr, set})
+	}
+	authorisedNow := func() map[string]common.Address {
+		cur := map[string]common.Address{}
+		for _, sp := range saleProps {
+			if sp.p.ID == 0 {
+				continue
+			}
+			if gp, err := w.N.App.GovKeeper.Proposals.Get(w.Ctx(), sp.p.ID); err == nil && gp.Status == govv1.StatusPassed {
+				cur = sp.set
+			}
+		}
+		return cur
+	}
+	if withContract {
+		set := map[string]common.Address{}
+		for _, c := range w.Order {
+			set[c] = saleKey.Addr
+		}
+		proposeSaleContracts(set)
+	}
+	authPrev := map[string]common.Address{}
 	module := moduleAddr(palomatypes.ModuleName)
 	licences := map[string]*c18Lic{}
 	actives := map[string]*c18Active{}
@@ -95,12 +129,13 @@ func c18(r *core.Run) []*core.Violation {
 		viols = append(viols, vio("C18", class, h, nil, fmt.Sprintf(format, args...)))
 	}
 	type saleEv struct {
-		nonce  uint64
-		buyer  string
-		grain  int64
-		author bool
+		nonce uint64
+		buyer string
+		grain int64
+		chain string
+		from  common.Address
 	}
-	sales := map[uint64]saleEv{}
+	sales := map[string]saleEv{}
 	hadAccount := func(addr string) bool {
 		a, err := sdk.AccAddressFromBech32(addr)
 		if err != nil {
@@ -117,8 +152,22 @@ func c18(r *core.Run) []*core.Violation {
 			ctx := w.Ctx()
 			_, e1 := w.N.App.PalomaKeeper.LightNodeClientFeegranter(ctx)
 			f, e2 := w.N.App.PalomaKeeper.LightNodeClientFunders(ctx)
-			c, e3 := w.N.App.SkywayKeeper.LightNodeSaleContract(ctx, "eth-main")
-			preCfgComplete = e1 == nil && e2 == nil && f != nil && len(f.Accounts) > 0 && e3 == nil && c != nil
+			preCfgComplete = e1 == nil && e2 == nil && f != nil && len(f.Accounts) > 0
+		}
+		// governance replaces the set of authorised sale contracts now and then (dropping chains, changing addresses)
+		if withContract && !w.Gov.Busy() && t.Chance(1, 30) {
+			set := map[string]common.Address{}
+			for _, c := range w.Order {
+				switch t.Intn(3) {
+				case 0: // dropped
+				case 1:
+					set[c] = saleKey.Addr
+				default:
+					set[c] = w.EvmUsers[1].Addr
+				}
+			}
+			proposeSaleContracts(set)
+			r.Stats.Probe("sale_contract_set_replaced")
 		}
 		nOps := t.Intn(3)
 		for j := 0; j < nOps; j++ {
@@ -166,7 +215,8 @@ func c18(r *core.Run) []*core.Violation {
 					pending = append(pending, &c18Op{kind: kind, user: who, client: who.Bech32(), tx: res.Tx})
 				}
 			default: // a sale on the remote chain
-				compass, _, ok := w.CompassOf("eth-main")
+				saleChain := w.Order[t.Intn(len(w.Order))]
+				compass, _, ok := w.CompassOf(saleChain)
 				if !ok {
 					continue
 				}
@@ -186,10 +236,10 @@ func c18(r *core.Run) []*core.Violation {
 					grain = 10_000_000 // more than the funder has
 				}
 				data, _ := evmsimPack("emit_nodesale_event", common.BytesToAddress(t.Bytes(20)), palomaReceiver(buyer), big.NewInt(1), big.NewInt(grain))
-				rec := w.Chains["eth-main"].Call(from, compass, data)
+				rec := w.Chains[saleChain].Call(from, compass, data)
 				if rec.Reason == "" {
-					cp := w.Chains["eth-main"].Compasses[compass]
-					sales[cp.GravityNonce] = saleEv{cp.GravityNonce, buyer.String(), grain, from == saleKey}
+					cp := w.Chains[saleChain].Compasses[compass]
+					sales[fmt.Sprintf("%s/%d", saleChain, cp.GravityNonce)] = saleEv{cp.GravityNonce, buyer.String(), grain, saleChain, from.Addr}
 					r.Stats.Probe("node_sales_emitted")
 				}
 			}
@@ -290,15 +340,18 @@ func c18(r *core.Run) []*core.Violation {
 			if !isSale {
 				continue
 			}
-			ev, known := sales[sc.SkywayNonce]
+			ev, known := sales[fmt.Sprintf("%s/%d", cur.Chain, sc.SkywayNonce)]
 			if !known {
 				continue
 			}
 			r.Stats.Probe("sales_observed")
 			_, e1 := w.N.App.PalomaKeeper.LightNodeClientFeegranter(ctx)
 			f, e2 := w.N.App.PalomaKeeper.LightNodeClientFunders(ctx)
-			c, e3 := w.N.App.SkywayKeeper.LightNodeSaleContract(ctx, "eth-main")
-			cfgNow := e1 == nil && e2 == nil && f != nil && len(f.Accounts) > 0 && e3 == nil && c != nil
+			cfgNow := e1 == nil && e2 == nil && f != nil && len(f.Accounts) > 0
+			authNow := authorisedNow()
+			a1, ok1 := authPrev[ev.chain]
+			a2, ok2 := authNow[ev.chain]
+			authorPre, authorNow := ok1 && a1 == ev.from, ok2 && a2 == ev.from
 			need := math.NewInt(ev.grain).MulRaw(1_000_000)
 			funded := funderBefore.GTE(need)
 			_, hasLic := licences[ev.buyer]
@@ -316,13 +369,13 @@ func c18(r *core.Run) []*core.Violation {
 			}
 			lic, err := w.N.App.PalomaKeeper.GetLightNodeClientLicense(ctx, ev.buyer)
 			created := err == nil && lic != nil && !hasLic
-			should := cfgNow && preCfgComplete && ev.author && funded && !hasLic && !existed
-			mustNot := (!cfgNow && !preCfgComplete) || !ev.author || hasLic || existed
-			r.Trace.Event("sale-observed", "nonce=%d buyer=%s created=%v cfg=%v/%v authorised=%v funded=%v", ev.nonce, ev.buyer[:14], created, preCfgComplete, cfgNow, ev.author, funded)
+			should := cfgNow && preCfgComplete && authorPre && authorNow && funded && !hasLic && !existed
+			mustNot := (!cfgNow && !preCfgComplete) || (!authorPre && !authorNow) || hasLic || existed
+			r.Trace.Event("sale-observed", "%s nonce=%d buyer=%s created=%v cfg=%v/%v authorised=%v/%v funded=%v", ev.chain, ev.nonce, ev.buyer[:14], created, preCfgComplete, cfgNow, authorPre, authorNow, funded)
 			if created {
 				r.Stats.Probe("sale_licences_created")
 				if mustNot {
-					bad("sale-licence-without-preconditions", h, "sale nonce %d created a licence for %s although config complete=%v, authorised contract=%v, buyer had licence=%v, buyer had account=%v", ev.nonce, ev.buyer, cfgNow, ev.author, hasLic, existed)
+					bad("sale-licence-without-preconditions", h, "sale nonce %d on %s from contract %s created a licence for %s although config complete=%v, contract authorised by governance (before / after this block)=%v/%v, buyer had licence=%v, buyer had account=%v", ev.nonce, ev.chain, ev.from.Hex(), ev.buyer, cfgNow, authorPre, authorNow, hasLic, existed)
 				}
 				if !lic.Amount.Amount.Equal(need) || lic.Amount.Denom != app.BondDenom {
 					bad("sale-licence-amount", h, "sale of %d grain created a licence over %s", ev.grain, lic.Amount)
@@ -361,6 +414,7 @@ func c18(r *core.Run) []*core.Violation {
 				delete(licences, a)
 			}
 		}
+		authPrev = authorisedNow()
 		esc := w.N.App.BankKeeper.GetBalance(ctx, module, app.BondDenom).Amount
 		if !esc.Equal(sum) {
 			bad("escrow-mismatch", h, "licence escrow holds %s but open licences sum to %s", esc, sum)
